@@ -1,6 +1,7 @@
 import Mathlib.Analysis.Complex.Trigonometric
 import Mathlib.Analysis.Complex.Basic
 import Mathlib.Analysis.Real.Sqrt
+import Mathlib.Analysis.SpecialFunctions.Trigonometric.Basic
 import Mathlib.Algebra.BigOperators.Group.Finset.Piecewise
 import Mathlib.Algebra.Module.LinearMap.Defs
 import Mathlib.Algebra.Module.Pi
